@@ -387,6 +387,7 @@ func runScenario(sc *Scenario, r *zsimrt.Rand, replay []zsimrt.Decision) *Outcom
 		for f := 0; f < total; f++ {
 			refA[f], soloSteps[f] = w.soloOp(taskOf[f], opOf[f])
 			out.SoloSteps += soloSteps[f]
+			probeOffer(sc, taskOf[f], opOf[f], refA[f])
 		}
 		soloStable()
 	}
@@ -667,4 +668,70 @@ func runScenario(sc *Scenario, r *zsimrt.Rand, replay []zsimrt.Decision) *Outcom
 		out.CBCalls += w.cbCalls[t]
 	}
 	return out
+}
+
+// ---- probes: operations re-evaluated in brand-new processes (oracle O4b) -----------
+//
+// A worker process accumulates whatever state the library keeps between calls. The
+// solo passes compare a call with itself inside that process, so a result that was
+// bent once and for all by something the process did EARLIER (a cache keyed too
+// coarsely that remembers the first spelling it saw, say) looks consistent from
+// inside. The orchestrator therefore re-evaluates a sample of operations, each in a
+// brand-new process that does nothing else, and compares: the result of a call that
+// is a function of its arguments alone cannot depend on which process made it.
+
+// Probe is one self-contained operation with the result the worker's solo pass gave.
+type Probe struct {
+	Op  Op     `json:"op"`
+	Res string `json:"res"`
+}
+
+var (
+	probeCap  int
+	probes    []Probe
+	probeSeen uint64
+	probeRand *zsimrt.Rand
+)
+
+func probeOffer(sc *Scenario, t, i int, res string) {
+	if probeCap == 0 {
+		return
+	}
+	op := sc.Tasks[t][i]
+	switch op.Kind {
+	case KSpawn, KPublish, KNewDriver:
+		return
+	}
+	if strings.HasPrefix(res, "abort:") || sc.Giant {
+		return
+	}
+	probeSeen++
+	slot := -1
+	if len(probes) < probeCap {
+		slot = len(probes)
+		probes = append(probes, Probe{})
+	} else if j := probeRand.Uint64n(probeSeen); j < uint64(probeCap) {
+		slot = int(j) // reservoir sampling
+	}
+	if slot < 0 {
+		return
+	}
+	if op.Shared >= 0 { // make it self-contained: the solo pass rebuilds shared subjects from their spec anyway
+		sp := sc.Shared[op.Shared]
+		sp.Late = false
+		op.Priv = &sp
+		op.Shared = -1
+	}
+	probes[slot] = Probe{Op: op, Res: res}
+}
+
+// runProbe evaluates one probe the way a solo pass does, in this (fresh) process.
+func runProbe(p *Probe) string {
+	sc := &Scenario{Tasks: [][]Op{{p.Op}}, MapSeed: 1}
+	w := &world{sc: sc}
+	ensureDrivers(false)
+	docPool = map[string][]byte{}
+	zsimrt.SetMapSeed(1)
+	res, _ := w.soloOp(0, 0)
+	return res
 }
